@@ -47,3 +47,16 @@ func dbgC12(args []string) int {
 }
 
 func init() { register("dbg-c12", dbgC12) }
+
+// dbg-moves <fen>: legal moves of a position (corpus authoring aid)
+func dbgMoves(args []string) int {
+	p, err := position.NewPositionFen(args[0])
+	if err != nil || p == nil {
+		fmt.Fprintln(realStdout, "rejected:", err)
+		return 1
+	}
+	w := NewWalker(NewRng(1))
+	fmt.Fprintln(realStdout, args[0], "check:", p.HasCheck(), "legal:", movesUci(w.legalMoves(p)))
+	return 0
+}
+func init() { register("dbg-moves", dbgMoves) }
